@@ -208,38 +208,49 @@ Qed.
 Lemma tc_of x t ts : nth_error (s_trans x) t = Some ts -> tc x t = Some (t_st ts, t_occ ts, t_job ts).
 Proof. intros H. unfold tc. rewrite H. reflexivity. Qed.
 
-(* the AGV's own triple after its transition: occupied_till is a time, the old value, or the waiting time *)
+(* the AGV's own triple after its transition: occupied_till is a time, the old value, or the waiting time computed
+   for a -> WAITING / -> TRANSIT transition; the claim is the old one, none, or - for a dispatch of an idle AGV -
+   the job the transition names *)
 Theorem apply_tc_self x tr x' t ts :
   apply_transition sigma i x tr = Ok x' -> tr_comp tr = CT t -> nth_error (s_trans x) t = Some ts ->
   exists st oc jb, tc x' t = Some (st, oc, jb)
-    /\ ((exists z, oc = OAt z) \/ oc = t_occ ts \/ get_waiting_time i x tr = Ok oc).
+    /\ ((exists z, oc = OAt z) \/ oc = t_occ ts
+        \/ (get_waiting_time i x tr = Ok oc /\ (tr_new tr = NT TWaiting \/ tr_new tr = NT TTransit)))
+    /\ (jb = t_job ts \/ jb = None \/ (tr_new tr = NT TWorking /\ t_st ts = TIdle /\ jb = tr_job tr /\ exists j, tr_job tr = Some j)).
 Proof.
   intros H Hc Hts.
-  destruct (apply_transport sigma i _ _ _ _ _ Hc Hts H) as [[_ [_ C]]|[[_ [_ C]]|[[_ [_ C]]|[[_ [_ C]]|[[_ [_ C]]|[_ [_ C]]]]]]].
+  destruct (apply_transport sigma i _ _ _ _ _ Hc Hts H) as [[Hst [Hnw C]]|[[_ [Hnw C]]|[[_ [Hnw C]]|[[_ [_ C]]|[[_ [_ C]]|[_ [Hnw C]]]]]]].
   - unfold h_t_idle_working in C. inv_all C. inversion C; subst; clear C.
-    rewrite tc_set_trans_ctl, Nat.eqb_refl, (tc_of _ _ _ Hts). simpl. eauto 8.
+    match goal with E' : of_opt _ (tr_job tr) = Ok ?jn |- _ => apply of_opt_ok in E'; rename E' into Ej end.
+    rewrite tc_set_trans_ctl, Nat.eqb_refl, (tc_of _ _ _ Hts). simpl. do 3 eexists. split; [reflexivity|]. split; [eauto|].
+    right; right. rewrite Ej. eauto 6.
   - unfold h_t_pickup_waiting in C. inv_all C. inversion C; subst; clear C.
-    rewrite tc_set_trans_ctl, Nat.eqb_refl, (tc_of _ _ _ Hts). simpl. eauto 8.
+    rewrite tc_set_trans_ctl, Nat.eqb_refl, (tc_of _ _ _ Hts). simpl. do 3 eexists. split; [reflexivity|]. split; [|auto].
+    right; right. auto.
   - destruct (post_to_transit sigma i _ _ _ _ _ Hts C) as [j [jb [sb [sc [Hj [Hjb [Hsb [Hsc _]]]]]]]].
     unfold h_t_to_transit in C. rewrite Hj in C. simpl in C. unfold get_job in C. rewrite Hjb in C. simpl in C.
     rewrite Hsb, Hsc in C. simpl in C. inv1 C. inv1 C.
     { unfold h_t_waiting_waiting in C. inv_all C. inversion C; subst; clear C.
-      rewrite tc_set_trans_ctl, Nat.eqb_refl, (tc_of _ _ _ Hts). simpl. eauto 8. }
+      rewrite tc_set_trans_ctl, Nat.eqb_refl, (tc_of _ _ _ Hts). simpl. do 3 eexists. split; [reflexivity|]. split; [|auto].
+      right; right. auto. }
     inv_all C. inversion C; subst; clear C.
     assert (Hn2 : j_loc jb <> BAgv t) by (intros Eq; rewrite Eq in *; discriminate).
     match goal with E' : move_job _ _ _ _ _ = Ok ?y |- _ => pose proof (move_job_moved i _ _ _ _ _ Hn2 E') as M end.
-    rewrite tc_with_sto, tc_set_trans_ctl, Nat.eqb_refl, (tc_moved i _ _ _ _ _ t M), (tc_of _ _ _ Hts). simpl. eauto 8.
+    rewrite tc_with_sto, tc_set_trans_ctl, Nat.eqb_refl, (tc_moved i _ _ _ _ _ t M), (tc_of _ _ _ Hts). simpl.
+    do 3 eexists. split; [reflexivity|]. split; [eauto|auto].
   - unfold h_t_transit_outage in C. inv_all C. inversion C; subst; clear C.
     match goal with E' : move_job _ _ _ (BAgv t) ?B = Ok ?y |- _ =>
       assert (Hn2 : BAgv t <> B) by
         (match goal with E'' : match ?d with PM _ => _ | PB _ => _ | PT _ => _ end = Ok B |- _ =>
            destruct d; inv_all E''; inversion E''; subst; congruence end);
       pose proof (move_job_moved i _ _ _ _ _ Hn2 E') as M end.
-    rewrite tc_with_sto, tc_set_trans_ctl, Nat.eqb_refl, (tc_moved i _ _ _ _ _ t M), (tc_of _ _ _ Hts). simpl. eauto 8.
+    rewrite tc_with_sto, tc_set_trans_ctl, Nat.eqb_refl, (tc_moved i _ _ _ _ _ t M), (tc_of _ _ _ Hts). simpl.
+    do 3 eexists. split; [reflexivity|]. split; [eauto|auto].
   - unfold h_t_outage_idle in C. inversion C; subst; clear C.
-    rewrite tc_set_trans_ctl, Nat.eqb_refl, (tc_of _ _ _ Hts). simpl. eauto 8.
+    rewrite tc_set_trans_ctl, Nat.eqb_refl, (tc_of _ _ _ Hts). simpl. do 3 eexists. split; [reflexivity|]. split; auto.
   - unfold h_t_waiting_waiting in C. inv_all C. inversion C; subst; clear C.
-    rewrite tc_set_trans_ctl, Nat.eqb_refl, (tc_of _ _ _ Hts). simpl. eauto 8.
+    rewrite tc_set_trans_ctl, Nat.eqb_refl, (tc_of _ _ _ Hts). simpl. do 3 eexists. split; [reflexivity|]. split; [|auto].
+    right; right. auto.
 Qed.
 
 (* applying a -> TRANSIT transition: the job keeps its operation records, the AGV its claim *)
